@@ -71,6 +71,8 @@ func corpusFor(c *Ctx) []*corpus.Program {
 		progs = append(progs, corpus.F1(5, 0, false, false)...)
 		progs = append(progs, corpus.F2(true)...)
 		progs = append(progs, corpus.F5(2, 1)...)
+		progs = append(progs, corpus.F6(2, 1)...)
+		progs = append(progs, corpus.F6(3, 1)...)
 		progs = append(progs, corpus.F4(int64(c.Seed)+1, 300, 8)...)
 	} else {
 		progs = append(progs, corpus.F1(1, 1, true, false)...)
@@ -79,6 +81,8 @@ func corpusFor(c *Ctx) []*corpus.Program {
 		progs = append(progs, corpus.F1(4, 1, false, false)...)
 		progs = append(progs, corpus.F2(false)...)
 		progs = append(progs, corpus.F5(2, 9)...)
+		progs = append(progs, corpus.F6(2, 1)...)
+		progs = append(progs, corpus.F6(3, 3)...)
 	}
 	if v := os.Getenv("VERIF_CORPUS_LIMIT"); v != "" {
 		var n int
